@@ -1221,3 +1221,30 @@ class send_stream_message:
         tm.Lt(tm.Len(_body_parts(body)[1]), tm.mk_int(TWO64)))
     finish = _ssm_finish
     modifies = []
+
+
+# ---------------------------------------------------------------- one failing connection does not disturb the others
+
+from vc.report import structural  # noqa: E402
+
+
+@structural("C16/scan/connections_are_isolated", props=["C16"],
+            note="SocketRPCServer.serve hands _serve_connection itself to asyncio.start_unix_server: asyncio runs it in a "
+                 "task of its own per connection, whose failure (RPCServerConnection.serve raises by design for a "
+                 "malformed frame) is logged and ends that connection only.  No task group or gather joins the "
+                 "connection tasks with each other or with the wait for the stop event.")
+def connections_are_isolated():
+    import ast
+
+    out = []
+    _, serve = extract.find_def("stepup/core/rpc.py", "SocketRPCServer.serve")
+    _, conn = extract.find_def("stepup/core/rpc.py", "SocketRPCServer._serve_connection")
+    starts = [c for c in ast.walk(serve) if isinstance(c, ast.Call) and ast.unparse(c.func).endswith("start_unix_server")]
+    cb = [ast.unparse(c.args[0]) if c.args else next((ast.unparse(k.value) for k in c.keywords if k.arg == "client_connected_cb"), None)
+          for c in starts]
+    out.append(("scan/connections_are_isolated/asyncio_runs_one_task_per_connection",
+                cb == [f"self.{conn.name}"] and isinstance(conn, ast.AsyncFunctionDef), f"callbacks: {cb}"))
+    joined = sorted({ast.unparse(c.func) for fn in (serve, conn) for c in ast.walk(fn) if isinstance(c, ast.Call)
+                     and any(w in ast.unparse(c.func) for w in ("TaskGroup", "gather", "create_task", "ensure_future", "wait_for"))})
+    out.append(("scan/connections_are_isolated/no_shared_task_group", not joined, f"joining constructs: {joined}"))
+    return out
